@@ -8,6 +8,9 @@ TARGETS = [
     ("fakesnow/types.py", "describe_as_rowtype.<locals>.as_column_info", "fakesnow.types.describe_as_rowtype.<locals>.as_column_info"),
     ("fakesnow/types.py", "describe_as_rowtype", "fakesnow.types.describe_as_rowtype"),
     ("fakesnow/server.py", "to_conn", "fakesnow.server.to_conn"),
+    ("fakesnow/checks.py", "equal", "fakesnow.checks.equal"),
+    ("fakesnow/expr.py", "key_command", "fakesnow.expr.key_command"),
+    ("fakesnow/checks.py", "is_unqualified_table_expression", "fakesnow.checks.is_unqualified_table_expression"),
 ]
 
 T = {cn.split(".")[-1] if cn.split(".")[-1] not in ("split",) else cn.split(".")[-1]: (rel, q, cn) for rel, q, cn in TARGETS}
